@@ -179,7 +179,7 @@ CHECKS["C19"] = {
     "level_note": "Trusted: harness/ref/frameref (about 300 lines). PUSH_PROMISE chains (PUSH_PROMISE without END_HEADERS followed by CONTINUATION) are generated but not judged: the reader tracks HEADERS chains only, and the statement speaks of HEADERS/CONTINUATION interleavings.",
     "assumptions": ["where several defects coincide in one frame any of their codes is admitted"],
     "units": [{"name": "c19", "pkg": "c19", "run": "^Test", "shards": 8, "fuzz": [{"name": "FuzzRead", "seconds": 90}]}],
-    "expect_checks": ["c19.read", "c19.write", "c19.meta-headers", "c19.meta-sequence", "c19.illegal-writes"],
+    "expect_checks": ["c19.read", "c19.write", "c19.meta-headers", "c19.meta-sequence", "c19.meta-read-any-bytes", "c19.illegal-writes"],
 }
 
 CHECKS["C08"] = {
